@@ -521,10 +521,18 @@ type emitter struct {
 	use       usage
 	stack     []string // indentation strings
 	depth     int
+	lastCR    bool
 }
 
 func (e *emitter) write(s string) {
 	e.sb.WriteString(s)
+	if s == "" {
+		return
+	}
+	if e.lastCR && s[0] == '\n' { // completes a CRLF begun by the previous chunk
+		s = s[1:]
+	}
+	e.lastCR = len(s) > 0 && s[len(s)-1] == '\r'
 	for i := 0; i < len(s); {
 		c := s[i]
 		switch {
@@ -553,7 +561,7 @@ func (e *emitter) write(s string) {
 func (e *emitter) eol() string {
 	m := e.L.EOL
 	if m == 3 {
-		m = e.r.n(3)
+		m = e.r.n(2) // LF and CRLF mixed; a lone CR before an LF would read as CRLF
 	}
 	switch m {
 	case 1:
